@@ -334,6 +334,9 @@ fn tail(ex: &mut IExec, ctx: &mut Ctx) {
         let (t, _) = ex.m.registry[id];
         for u in 0..4u8 {
             let hd = 2 + u as usize;
+            if ex.toks[t].kind == TokKind::Probe && hd == BLOCKED_USER {
+                continue; // this token refuses that receiver by design of the stub
+            }
             if ex.bal(t, hd) >= 1 && ex.bal(0, hd) >= 1 && t != 0 {
                 ctx.count("tail.outbound");
                 let before = ex.bal(t, hd);
